@@ -371,7 +371,8 @@ ASTNode *PrimaryExpressionParser::parsePrimary() {
                     parser_->check(TokenType::TOK_AND) ||
                     parser_->check(TokenType::TOK_OR) ||
                     parser_->check(TokenType::TOK_QUESTION) ||
-                    parser_->check(TokenType::TOK_ASSIGN)) {
+                    parser_->check(TokenType::TOK_ASSIGN) ||
+                    parser_->check(TokenType::TOK_NUMBER)) {
                     break;
                 }
                 if (parser_->check(TokenType::TOK_LT)) {
